@@ -263,7 +263,9 @@ Fixpoint prop_from (chk : sp -> list Z -> bool) (strict : bool) (st : ospec) (op
               | Some s => (nth 0 ob (-1) =? sp_cap s) && (nth 1 ob (-1) =? sp_nh s) && (nth 2 ob (-1) =? sp_seed s)
                           && (nth 3 ob (-1) =? zbool (card (sp_set s) =? 0)) && prop_from chk strict st r obr
               | None => prop_from chk strict st r obr end
-      | 14 => (* sizing is transcendental: take the crate's own answer for capacity / num_hashes *)
+      | 14 => (* sizing is transcendental: take the crate's own answer for capacity / num_hashes - but it must be what
+                 the builder documents: at least MIN_NUM_BITS rounded up to whole words, 1 <= num_hashes <= 32767 *)
+              (64 <=? nth 0 ob 0) && (nth 0 ob 0 mod 64 =? 0) && (1 <=? nth 1 ob 0) && (nth 1 ob 0 <=? 32767) &&
               prop_from chk strict (op_ st slot (Some (mkSp (nth 1 ob 0) (nth 3 a 0) (repeat false (Z.to_nat (nth 0 ob 0)))))) r obr
       | 16 => (* fork: the copy denotes the same set; the round trip of a known state must succeed *)
               match og st slot with
